@@ -9,6 +9,118 @@ NAMES = ["window_with_count", "buffer_with_count", "window_with_time", "buffer_w
          "window_when", "buffer_when", "window_toggle", "buffer_toggle"]
 
 
+def run_sync_closing(case):
+    """window_when / buffer_when whose closing selector returns, at chosen invocations, an observable that fires
+    SYNCHRONOUSLY inside subscribe() (completes at once / emits at once) -- otherwise a hand-held Subject.
+    -> list of windows (each a list of elements; the last one may be open), outer terminal"""
+    import reactivex as rx
+    from reactivex import operators as ops
+    from reactivex.subject import Subject
+    src = Subject()
+    closings = []            # Subjects handed out, in invocation order (None for the synchronous ones)
+    calls = [0]
+
+    def closing():
+        k = calls[0]
+        calls[0] += 1
+        kind = case["kinds"][k] if k < len(case["kinds"]) else "hot"
+        if kind == "empty":
+            closings.append(None)
+            return rx.empty()
+        if kind == "of":
+            closings.append(None)
+            return rx.of(0)
+        s = Subject()
+        closings.append(s)
+        return s
+    windows, term = [], []
+    if case["operator"] == "buffer_when":
+        src.pipe(ops.buffer_when(closing)).subscribe(lambda b: windows.append(list(b)), lambda e: term.append("E"),
+                                                     lambda: term.append("C"))
+    else:
+        def on_window(w):
+            rec = []
+            windows.append(rec)
+            w.subscribe(rec.append, lambda e: None, lambda: None)
+        src.pipe(ops.window_when(closing)).subscribe(on_window, lambda e: term.append("E"), lambda: term.append("C"))
+    for step in case["script"]:
+        if step[0] == "N":
+            src.on_next(step[1])
+        elif step[0] == "close":        # the most recent hot closing observable fires
+            live = [s for s in closings if s is not None]
+            if live:
+                (live[-1].on_next(0) if step[1] == "next" else live[-1].on_completed())
+        else:
+            src.on_completed()
+    return windows, term
+
+
+def ref_sync_closing(case):
+    """reference: one window at a time; it closes when its closing observable fires (synchronously at creation for
+    'empty'/'of'); the next window opens at that instant with the next invocation of the selector"""
+    kinds = case["kinds"]
+    calls = 0
+    windows = [[]]
+
+    def open_next():
+        nonlocal calls
+        while True:
+            kind = kinds[calls] if calls < len(kinds) else "hot"
+            calls += 1
+            if kind == "hot":
+                return
+            windows.append([])          # fired at once: that window is closed empty and the next one opens
+    open_next()
+    done = False
+    for step in case["script"]:
+        if done:
+            break
+        if step[0] == "N":
+            windows[-1].append(step[1])
+        elif step[0] == "close":
+            windows.append([])
+            open_next()
+        else:
+            done = True
+    return windows, (["C"] if done else [])
+
+
+def sync_closing_scenarios(chk):
+    n = 120 if chk.tier == "quick" else 2000
+    nontrivial = set()
+    for _ in range(n):
+        kinds = [chk.rng.choice(["hot", "hot", "hot", "empty", "of"]) for _ in range(chk.rng.choice([2, 4, 6]))]
+        script = []
+        for _ in range(chk.rng.choice([3, 5, 8])):
+            r = chk.rng.random()
+            if r < 0.6:
+                script.append(["N", chk.rng.choice([0, None, 1, 2, 3, ""])])
+            else:
+                script.append(["close", chk.rng.choice(["next", "next", "done"])])
+        if chk.rng.random() < 0.7:
+            script.append(["done"])
+        case = {"operator": chk.rng.choice(["window_when", "buffer_when"]), "kinds": kinds, "script": script}
+        try:
+            got = run_sync_closing(case)
+        except RecursionError:
+            continue
+        chk.cov["evaluations"] += 1
+        exp = ref_sync_closing(case)
+        gw, ew = list(got[0]), list(exp[0])
+        if case["operator"] == "buffer_when" and exp[1] != ["C"]:
+            ew = ew[:-1]                 # the open buffer is only emitted at completion
+        if (gw, got[1]) != (ew, exp[1]):
+            chk.violation(f"C18|sync-closing|{case['operator']}|{kinds}|{script}"[:160],
+                          {"sync_closing_case": case, "got (windows, terminal)": [gw, got[1]],
+                           "expected": [ew, exp[1]],
+                           "what": "closing selector returning an observable that fires inside subscribe(): the "
+                                   "window closes at once and the NEXT closing observable must stay subscribed"},
+                          size=len(script) + len(kinds))
+        elif any(k != "hot" for k in kinds[:3]) and len(ew) >= 3:
+            nontrivial.add(repr(case))
+    return nontrivial
+
+
 def run(chk):
     chk.build_and_prove()
     win_table.run_ops(chk, "C18", NAMES, ncase=(60 if chk.tier == "quick" else 600))
@@ -19,6 +131,12 @@ def run(chk):
                        "seeded window-subscription policies (immediately / after a delay / never / dispose after n "
                        "elements / dispose after d ms); non-trivial = distinct (policy, machine, delivered input "
                        "sequence) with >= 2 window or buffer notifications and the oracle satisfied")
+    nt = sync_closing_scenarios(chk)
+    chk.cov["distinct_nontrivial"] = chk.cov.get("distinct_nontrivial", 0) + len(nt)
+    chk.cov["sync_closing_scenarios_nontrivial"] = len(nt)
+    chk.cov["rule"] += ("; oracle-only: window_when / buffer_when whose closing selector returns, at seeded "
+                        "invocations, an observable firing synchronously inside subscribe() (empty / of) mixed with "
+                        "hand-held ones, against a reference written from the rule")
     chk.cov["operators_modelled"] = NAMES
     return chk.finish(trusted_extra=[
         "window-aware K2 driver harness/k2w.py (hot sources, proxy scheduler, boundary log, window subscription "
@@ -29,6 +147,19 @@ def run(chk):
 
 
 def replay(chk, path):
+    import json
+    d = json.load(open(path))
+    if "sync_closing_case" in d:
+        case = d["sync_closing_case"]
+        got, exp = run_sync_closing(case), ref_sync_closing(case)
+        gw, ew = list(got[0]), list(exp[0])
+        if case["operator"] == "buffer_when" and exp[1] != ["C"]:
+            ew = ew[:-1]
+        print(json.dumps({"case": case, "got": [gw, got[1]], "expected": [ew, exp[1]]}, default=str))
+        if (gw, got[1]) != (ew, exp[1]):
+            print(f"VIOLATION property=C18 replay={path}")
+            return 1
+        return 0
     v, text = win_table.replay_case(path)
     print(text)
     print(f"[{chk.pid}] replay: {'STILL VIOLATED' if v else 'no longer violated on the current tree'}")
